@@ -24,6 +24,7 @@ type cctx struct {
 	st       *State
 	old      *State
 	env      map[string]cbind
+	oldEnv   map[string]cbind // bindings as they were before the callee's frame was havocked
 	callee   *Contract
 	resNames []string
 	clause   *Clause
@@ -199,6 +200,15 @@ func (c *cctx) evalIdent(id *ast.Ident) cval {
 			if rn == name {
 				if val, ok := c.st.vars[x.results[i]]; ok {
 					return cval{val, x.results[i].Type()}
+				}
+			}
+		}
+		// a local of the unit that is not bound on this path: unconstrained
+		if x.pkg != nil && x.unit != nil && x.unit.Decl != nil {
+			for idn, obj := range x.info.Defs {
+				if v, ok := obj.(*types.Var); ok && idn.Name == name && !v.IsField() &&
+					idn.Pos() >= x.unit.Decl.Pos() && idn.Pos() <= x.unit.Decl.End() {
+					return cval{x.fresh(c.st, v.Type(), name), v.Type()}
 				}
 			}
 		}
@@ -672,6 +682,9 @@ func (c *cctx) evalCall(e *ast.CallExpr) cval {
 	case "old":
 		n := *c
 		n.st = c.old
+		if c.oldEnv != nil {
+			n.env = c.oldEnv
+		}
 		return n.eval(arg(0))
 	case "now":
 		n := *c
@@ -781,6 +794,40 @@ func (c *cctx) evalCall(e *ast.CallExpr) cval {
 			return c.boolVal(True)
 		}
 		return c.boolVal(x.stringEq(c.st, sa, sb))
+	case "field":
+		// field(x, "T.f"): field f of the object x points to, viewed as a *T of
+		// the contract's package (for values held in interface variables)
+		a := c.eval(arg(0))
+		lit, ok := arg(1).(*ast.BasicLit)
+		if !ok || lit.Kind != token.STRING {
+			c.fail("field(x, \"T.f\") wants a string literal")
+			return c.boolVal(True)
+		}
+		tf, _ := strconv.Unquote(lit.Value)
+		i := strings.LastIndex(tf, ".")
+		if i < 0 {
+			c.fail("field: want T.f")
+			return c.boolVal(True)
+		}
+		tn, fname := tf[:i], tf[i+1:]
+		pkgPath := c.pkgOfClause()
+		if j := strings.LastIndex(tn, "."); j >= 0 {
+			if p := x.eng.importedPkg(pkgPath, tn[:j]); p != nil {
+				pkgPath = p.Path()
+			}
+			tn = tn[j+1:]
+		}
+		tp := x.eng.typesPkg(pkgPath)
+		if tp == nil {
+			c.fail("field: unknown package for %s", tf)
+			return c.boolVal(True)
+		}
+		obj := tp.Scope().Lookup(tn)
+		if obj == nil {
+			c.fail("field: unknown type %s", tn)
+			return c.boolVal(True)
+		}
+		return c.fieldOfMust(cval{Sc{x.scalarOf(a.v, nil)}, types.NewPointer(obj.Type())}, fname)
 	case "store":
 		// store(a, i, v) on ghost byte arrays
 		a := c.eval(arg(0))
@@ -1177,4 +1224,12 @@ func (x *Exec) checkPost(st *State, retName string, pos token.Pos) {
 		sn.add(Not(Or(classes...)))
 		x.obligeClause(sn, "post", name, en, g, pos)
 	}
+}
+
+func (c *cctx) fieldOfMust(base cval, name string) cval {
+	if r, ok := c.fieldOf(base, name); ok {
+		return r
+	}
+	c.fail("no field %s", name)
+	return c.boolVal(True)
 }
